@@ -601,3 +601,4 @@ LEVEL_NOTE = ("the model is tied to the code by differential testing on generate
               "covered by the tie only")
 TECHNIQUE = "Lean 4 proof (implementation-shaped model = structural specification) + correspondence check against the real library"
 RULE = RULE + " Fourth session: the caller's list of prune paths must be unchanged after the call."
+RULE = RULE + ' Fifth session: lived-in trees: a subtree hung elsewhere while every node was looked up by path, then put back.'
